@@ -25,3 +25,38 @@ Theorem C03_kernel_text_spec : forall ts ep fuel, sortedZ ts -> canonical ep ->
   end.
 Proof. exact k_jitrestrict_spec. Qed.
 Print Assumptions C03_kernel_text_spec.
+
+(* The same for jitrestrict_with_count (positions and per-interval counts) and jitin_interval (interval number of
+   each sample, NaN when in none).  jitin_interval needs sorted samples and sorted starts: Inv/Jitin_interval_func.v
+   records, by computation, an unsorted input on which kernel and model differ for each hypothesis. *)
+From Verif Require Import Inv.Jitrestrict_with_count_func Inv.Jitin_interval_func.
+
+Theorem C03_with_count_kernel_text_computes_model : forall ts ep fuel,
+  Forall (fun I => fst I <= snd I) ep ->
+  match run fuel k_jitrestrict_with_count (jitrestrict_args ts ep) with
+  | Return rs => rs = [index_array (restrict_idx ts ep); index_array (restrict_cnt ts ep)]
+  | OutOfFuel => True
+  | _ => False
+  end.
+Proof. exact k_jitrestrict_with_count_computes_model. Qed.
+Print Assumptions C03_with_count_kernel_text_computes_model.
+
+Theorem C03_with_count_kernel_text_spec : forall ts ep fuel, sortedZ ts -> canonical ep ->
+  match run fuel k_jitrestrict_with_count (jitrestrict_args ts ep) with
+  | Return rs => rs = [index_array (filter_idx (fun x => mem x ep) 0%nat ts);
+                       index_array (map (fun iv => count_if (fun x => inb x iv) ts) ep)]
+  | OutOfFuel => True
+  | _ => False
+  end.
+Proof. exact k_jitrestrict_with_count_spec_func. Qed.
+Print Assumptions C03_with_count_kernel_text_spec.
+
+Theorem C03_in_interval_kernel_text_computes_model : forall ts ep fuel,
+  sortedZ ts -> sortedZ (firsts ep) ->
+  match run fuel k_jitin_interval (jitrestrict_args ts ep) with
+  | Return rs => rs = [in_array (in_interval ts ep)]
+  | OutOfFuel => True
+  | _ => False
+  end.
+Proof. exact k_jitin_interval_computes_model. Qed.
+Print Assumptions C03_in_interval_kernel_text_computes_model.
